@@ -3728,3 +3728,13 @@ impl QueryServerWriteTransaction<'_> {
         self.cid.clone()
     }
 }
+
+// Verification hook (C24). Add-only and behaviour neutral; only compiled with `verif-hooks`.
+#[cfg(feature = "verif-hooks")]
+impl<'a> QueryServerWriteTransaction<'a> {
+    /// verif hook: this transaction's access control profiles, so that synthetic profiles can be
+    /// installed that live only inside this (never committed) transaction.
+    pub(crate) fn verif_c24_accesscontrols_mut(&mut self) -> &mut AccessControlsWriteTransaction<'a> {
+        &mut self.accesscontrols
+    }
+}
